@@ -62,7 +62,7 @@ def st_sleep(ns):
 
 def st_end():
     out = []
-    for _ in range(3):
+    for _ in range(8):
         for p in YIELDS + ["drain:marked"]:
             out.append(st_rel(p))
     return out + [st_sleep(45 * SEC), {"op": "observe", "id": "final"}]
